@@ -160,34 +160,56 @@ def run(ctx) -> None:
                      "in strictly increasing time order")
 
     # ---------------------------------------------------------------- R34c / R34d / R34e
-    def entry_loop(fn):
-        lps = [n for n in walk_no_nested(fn.node) if isinstance(n, ast.For) and "entries" in norm(n.iter)]
-        if len(lps) != 1:
-            raise AnchorError(f"{fn.short}: expected one loop over the plot log entries, found {len(lps)}")
-        return lps[0]
-    hl, rl = entry_loop(head), entry_loop(rows)
-    inst = f"entries iterated: header `{norm(hl.iter)}` / rows `{norm(rl.iter)}`"
-    if norm(hl.iter) == norm(rl.iter) and norm(hl.iter).endswith(".entries.values()"):
+    from ..util import local_single_defs as _lsd
+    rdefs = _lsd(rows)
+    rparams = [a_.arg for a_ in rows.node.args.args]
+    hl = [n for n in walk_no_nested(head.node) if isinstance(n, ast.For) and "entries" in norm(n.iter)]
+    if len(hl) != 1:
+        raise AnchorError(f"_write_header_row: expected one loop over the plot log entries, found {len(hl)}")
+    hl = hl[0]
+    # the tick loop: over the times parameter; the per-column loop: the for directly inside it
+    tick_loops = [n for n in walk_no_nested(rows.node) if isinstance(n, ast.For) and isinstance(n.iter, ast.Name)
+                  and n.iter.id in rparams and isinstance(n.target, ast.Name)]
+    if len(tick_loops) != 1:
+        raise AnchorError("_write_data_rows: loop over the row times parameter not found")
+    tl = tick_loops[0]
+    tvar = tl.target.id
+    col_loops = [st for st in tl.body if isinstance(st, ast.For)]
+    if len(col_loops) != 1:
+        raise AnchorError("_write_data_rows: expected exactly one per-column loop inside the row loop")
+    rl = col_loops[0]
+    # what the per-column loop ranges over, by role: the entries themselves, or their value lists (through a comprehension)
+    it = rl.iter
+    if isinstance(it, ast.Call) and call_attr(it) == "enumerate" and it.args:
+        it = it.args[0]
+        col_target = rl.target.elts[1] if isinstance(rl.target, ast.Tuple) and len(rl.target.elts) == 2 else None
+    else:
+        col_target = rl.target
+    if not isinstance(col_target, ast.Name):
+        raise AnchorError("_write_data_rows: per-column loop target not understood")
+    it_def = rdefs.get(it.id, it) if isinstance(it, ast.Name) else it
+    if norm(it_def).endswith(".entries.values()"):
+        entries_src, VL = norm(it_def), f"{col_target.id}.values"
+    elif isinstance(it_def, ast.ListComp) and len(it_def.generators) == 1 and not it_def.generators[0].ifs \
+            and norm(it_def.generators[0].iter).endswith(".entries.values()") \
+            and norm(it_def.elt) == f"{norm(it_def.generators[0].target)}.values":
+        entries_src, VL = norm(it_def.generators[0].iter), col_target.id
+    else:
+        raise AnchorError(f"_write_data_rows: the per-column loop ranges over `{norm(it_def)[:60]}` - not the plot log entries")
+    inst = f"entries iterated: header `{norm(hl.iter)}` / rows `{entries_src}`"
+    if norm(hl.iter) == entries_src:
         ctx.ok("R34c", inst)
     else:
         ctx.fail("R34c", rows, rl, inst, "header and data rows iterate different collections: columns do not line up")
     gr = cfg_of(rows)
     rl_node = next(n for n in gr.nodes if n.kind == "for" and n.ast is rl)
-    evar = rl.target.id if isinstance(rl.target, ast.Name) else None
-    outer = [n for n in walk_no_nested(rows.node) if isinstance(n, ast.For) and n is not rl and any(x is rl for x in ast.walk(n))]
-    if not outer or not isinstance(outer[0].target, ast.Name) or evar is None:
-        raise AnchorError("_write_data_rows: outer loop over tick times not found")
-    tvar = outer[0].target.id
-
-    # the row list: the local passed to writerow(...) inside the tick-time loop (by role)
-    row_var = next((norm(c.args[0]) for c in ast.walk(outer[0]) if isinstance(c, ast.Call) and call_attr(c) == "writerow" and c.args
+    row_var = next((norm(c.args[0]) for c in ast.walk(tl) if isinstance(c, ast.Call) and call_attr(c) == "writerow" and c.args
                     and isinstance(c.args[0], ast.Name)), None)
     if row_var is None:
         raise AnchorError("_write_data_rows: the row list handed to writerow(...) was not found")
 
     def is_cell_append(n):
         return any(call_attr(c) == "append" and norm(c.func) == f"{row_var}.append" for c in n.calls())
-    # one cell per entry per path: enumerate acyclic paths of the body from the loop edge back to the loop node
     counts = set()
     witness = {}
 
@@ -215,7 +237,7 @@ def run(ctx) -> None:
         ctx.fail("R34c", rows, rl, inst, f"a path through the per-entry body appends {bad} cells (counts seen: {sorted(counts)}): "
                  "columns shift", witness.get(bad))
     hg = cfg_of(head)
-    h_app = [n for n in hg.nodes if any(call_attr(c) == "append" and "header_row" in norm(c.func) for c in n.calls())]
+    h_app = [n for n in hg.nodes if any(call_attr(c) == "append" and isinstance(c.func.value, ast.Name) for c in n.calls())]
     hl_node = next(n for n in hg.nodes if n.kind == "for" and n.ast is hl)
     inst = "_write_header_row: one header cell per entry"
     if len(h_app) == 1 and hg.search([(hl_node.id, "loop")], lambda n: n.id == hl_node.id, blocked=lambda n: n.id == h_app[0].id,
@@ -224,55 +246,68 @@ def run(ctx) -> None:
     else:
         ctx.fail("R34c", head, hl, inst, "header does not append exactly one cell per entry")
 
-    # R34d: the pop(0) advance sits in a while loop whose test compares the next value's time with the row time
-    pops = [n for n in gr.nodes if any(call_attr(c) == "pop" and norm(c.func) == f"{evar}.values.pop" for c in n.calls())]
-    if not pops:
-        raise AnchorError("_write_data_rows: cursor advance (entry.values.pop) not found; the algorithm changed shape")
-    pm = {id(ch): par for par in ast.walk(rows.node) for ch in ast.iter_child_nodes(par)}
-    for pn in pops:
-        inst = f"_write_data_rows: {pn.text()}"
-        cur = pm.get(id(pn.ast))
-        in_while = None
-        while cur is not None and cur is not rl:
-            if isinstance(cur, ast.While):
-                in_while = cur
-                break
-            cur = pm.get(id(cur))
-        if in_while is None:
-            ctx.fail("R34d", rows, pn.ast, inst, "the head is advanced at most once per row (conditional, not a loop): when a tag has "
-                     "several values at or before a row time the cell shows a stale value instead of the latest one")
-        elif f"{evar}.values[1].tick_time" not in norm(in_while.test) or tvar not in norm(in_while.test):
-            ctx.fail("R34d", rows, pn.ast, inst, f"the advance loop's test `{norm(in_while.test)}` does not compare the next value's "
-                     "time with the row time")
-        else:
-            ctx.ok("R34d", inst)
+    # R34d: the advance (drop the head / move a cursor) is a loop whose test compares the *next* value's time with the row time
+    def time_cmp(e) -> bool:
+        return any(isinstance(c, ast.Compare) and len(c.ops) == 1 and tvar in (norm(c.left), norm(c.comparators[0]))
+                   and any(t_.endswith(".tick_time") and t_.startswith(VL + "[") for t_ in (norm(c.left), norm(c.comparators[0])))
+                   for c in ast.walk(e))
+    whiles = [w for w in ast.walk(rl) if isinstance(w, ast.While) and time_cmp(w.test)]
+    ifs = [i for i in ast.walk(rl) if isinstance(i, ast.If) and time_cmp(i.test) and any(
+        (isinstance(x, ast.Call) and call_attr(x) == "pop") or isinstance(x, ast.AugAssign) for x in ast.walk(i))
+        and not any(any(x is i for x in ast.walk(w)) for w in whiles)]
+    inst = "_write_data_rows: the advance to the latest value at or before the row time is a loop"
+    if ifs:
+        ctx.fail("R34d", rows, ifs[0], inst, "the cursor is advanced at most once per row (conditional, not a loop): when a tag has "
+                 "several values at or before a row time the cell shows a stale value instead of the latest one")
+    elif whiles:
+        ctx.ok("R34d", inst)
+    else:
+        raise AnchorError("_write_data_rows: no advance step comparing the next value's time with the row time was found")
 
-    # R34e
-    head_val = f"{evar}.values[0].value"
-    cells = [n for n in gr.nodes if any(call_attr(c) == "append" and norm(c.func) == f"{row_var}.append" and c.args
-                                        and norm(c.args[0]) == head_val for c in n.calls())]
-    if not cells:
-        raise AnchorError(f"_write_data_rows: no `{row_var}.append({head_val})` found; the algorithm changed shape")
-    ht = f"{evar}.values[0].tick_time"
-    for cn in cells:
-        inst = f"_write_data_rows: {cn.text()}"
-        facts = facts_at(gr, cn)
-        ok = False
-        for e, pol in gr.conditions_at(cn):
-            for cmp_ in ast.walk(e):
-                if isinstance(cmp_, ast.Compare) and len(cmp_.ops) == 1:
-                    l, r, op = norm(cmp_.left), norm(cmp_.comparators[0]), cmp_.ops[0]
-                    # established: head time <= row time
-                    if pol and ((l == tvar and r == ht and isinstance(op, (ast.GtE,))) or (l == ht and r == tvar and isinstance(op, ast.LtE))):
-                        ok = _top_level_conjunct(e, cmp_, True)
-                    if not pol and ((l == tvar and r == ht and isinstance(op, ast.Lt)) or (l == ht and r == tvar and isinstance(op, ast.Gt))):
-                        ok = ok or _top_level_conjunct(e, cmp_, False)
-        if ok:
-            ctx.ok("R34e", inst)
-        else:
-            ctx.fail("R34e", rows, cn.ast, inst, f"the cell takes `{head_val}` without a test that {ht} <= {tvar}: for a tag whose "
-                     "first value is recorded later than the first row the rows before it show that future value instead of "
-                     "an empty cell")
+    # R34e: a cell that shows a recorded value `VL[i].value` needs a guard relating VL[i].tick_time to the row time
+    n_cells = 0
+    for n in gr.nodes:
+        for c in n.calls():
+            if not (call_attr(c) == "append" and norm(c.func) == f"{row_var}.append" and c.args):
+                continue
+            x = c.args[0]
+            cands = []      # (value expr, extra guard (expr, polarity) from a conditional expression)
+            if isinstance(x, ast.IfExp):
+                cands += [(x.body, (x.test, True)), (x.orelse, (x.test, False))]
+            else:
+                cands.append((x, None))
+            for vx, extra in cands:
+                if not (isinstance(vx, ast.Attribute) and vx.attr == "value" and isinstance(vx.value, ast.Subscript)
+                        and norm(vx.value.value) == VL):
+                    continue
+                n_cells += 1
+                idx = vx.value.slice
+                ht = f"{VL}[{norm(idx)}].tick_time"
+                inst = f"_write_data_rows: cell `{norm(vx)}`"
+                guards = list(gr.conditions_at(n)) + ([extra] if extra else [])
+                ok = False
+                mentions_idx = False
+                for e, pol in guards:
+                    for cmp_ in ast.walk(e):
+                        if isinstance(cmp_, ast.Compare) and len(cmp_.ops) == 1:
+                            l, r, op = norm(cmp_.left), norm(cmp_.comparators[0]), cmp_.ops[0]
+                            if pol and ((l == tvar and r == ht and isinstance(op, ast.GtE)) or (l == ht and r == tvar and isinstance(op, ast.LtE))):
+                                ok = ok or _top_level_conjunct(e, cmp_, True)
+                            if not pol and ((l == tvar and r == ht and isinstance(op, ast.Lt)) or (l == ht and r == tvar and isinstance(op, ast.Gt))):
+                                ok = ok or _top_level_conjunct(e, cmp_, False)
+                            if isinstance(idx, ast.Name) and idx.id in (l, r):
+                                mentions_idx = True
+                if ok:
+                    ctx.ok("R34e", inst)
+                elif mentions_idx:
+                    raise AnchorError(f"_write_data_rows: cell `{norm(vx)}` is guarded by a test on the cursor `{norm(idx)}` - cursor "
+                                      "invariant not understood")
+                else:
+                    ctx.fail("R34e", rows, c, inst, f"the cell takes `{norm(vx)}` without a test that {ht} <= {tvar} "
+                             f"(guards: {[norm(e) for e, _ in guards] or 'none'}): for a tag whose first value is recorded later than "
+                             "the first row the rows before it show a value from the future instead of an empty cell")
+    if n_cells == 0:
+        raise AnchorError(f"_write_data_rows: no cell of the form `{VL}[i].value` found; the algorithm changed shape")
 
 
 def _top_level_conjunct(e: ast.AST, cmp_: ast.AST, pol: bool) -> bool:
